@@ -90,6 +90,11 @@ CHECKS = {
    technique="TLA+ reference-position model (RefPositions.tla: Used, Reach, Missing) emitting every hygienic project x registration subset; replay on UsedUserTypes/Check with and without an unused type",
    text="RefPositions.tla lets the root mention @a/@b/@c in all eight positions (value shortcut, @a | @b, key shortcut, type, or by name, or rule-set, allOf, additionalProperties), lets type definitions mention each other one level further, registers every subset of the definitions and optionally an unused valid type; TLC checks UsedIsReached / MissingOnlyIfWithheld and emits ~75k (quick) projects with Used and Missing. Replay: UsedUserTypes() as a set without duplicates = Used; Check() returns 1302 naming a member of Missing iff Missing is not empty; every observable is identical with and without the unused type.",
    note="Generator hygiene: kinds fit positions, mentions among types are acyclic, unreached registered types mention registered names only, no additionalProperties conflict through allOf."),
+ "C08": dict(
+   category="model_checking", design_ref="DESIGN.md §3 C08",
+   technique="accepted projects enumerated by TLC from the TLA+ models (SchemaModel, SchemaModelExtra, SchemaText, AllOf, RefPositions) with RuleSemantics-derived accepted variations; OpenAPI conversions judged by an independent JSON Schema validator (jsonschema via tools/oas_validate.py)",
+   text="Programs are the accepted projects the other specifications emit (rule families on six skeletons, enum/const/nullable/formats/or, annotated objects with references, choices, key shortcuts, nested containers and escaped keys, inheritance projects, reference-position projects). For each the library produces Example(), the OpenAPI conversion of the root and of every registered type (assembled as #/components/schemas/*). The validator (jsonschema, Draft 4 vocabulary + nullable, numbers as exact decimals, hand-written OpenAPI 3.0 Schema Object meta-schema) checks well-formed JSON, well-formed Schema Object, example is an instance, and every variation that RuleSemantics says the rules accept (the other values of the same skeleton+rules group, same JSON number kind) is an instance.",
+   note="Instance-of for Schema Objects is delegated to jsonschema (DESIGN §2.5); format is an annotation. Quick tier stride-samples the programs. Known finding: the allOf conversion."),
 }
 
 REASON_PENDING = "check not built yet in this round (design in DESIGN.md §3); no claim is made"
